@@ -141,7 +141,7 @@ def render_verilog(nl, lib, seed, simple=False, modname='top'):
     net = {}
     for k in range(npi): net[f'i{k}'] = pi_names[k]
     wire_decl = []
-    esc = lambda s: '\\' + s + ' '
+    esc = lambda s: '\\' + s + [' ', ' ', '\t', '\n', '\r\n', ' \r\n'][st.pick(6)]        # an escaped identifier ends at any white space
     bound_po = {}
     for k, src in enumerate(nl['po']):       # an output port may be the net of its source (driven directly by an instance pin)
         is_const = src[0] == 'g' and nl['g'][int(src[1:])]['f'] in ('BUF', 'INV') and nl['g'][int(src[1:])]['i'][0] is None
@@ -222,7 +222,7 @@ def render_verilog(nl, lib, seed, simple=False, modname='top'):
     floating, wire_decl_late = [], []
 
     def iname(prefix, k):
-        nm = [f'{prefix}{k}', f'U{prefix}{k}', f'{prefix}_{k}_reg', f'{prefix}_reg[{k}]' if simple else f'top/{prefix}[{k}]'][st.pick(4)]
+        nm = [f'{prefix}{k}', f'U{prefix}{k}', f'{prefix}_{k}_reg', f'{prefix}_reg[{k}]' if simple else f'top/{prefix}[{k}]', f'{prefix}_reg_{k}_'][st.pick(5)]      # the last one: a register bit as renamed by a synthesis tool
         return nm
     def inst(cell, name, conns):
         order = list(conns)
